@@ -71,7 +71,7 @@ type pkgSpec struct {
 var specs = []pkgSpec{
 	{"/repo", "./internal/counter", []string{"sync/atomic", "sync", "os", "os.File", "golang.org/x/telemetry/internal/mmap", "time", "math/rand"}},
 	{"/repo", ".", []string{"os", "os.File", "os/exec", "time"}},
-	{"/repo", "./internal/upload", []string{"os", "os.File", "net/http", "crypto/rand", "golang.org/x/telemetry/internal/configstore"}},
+	{"/repo", "./internal/upload", []string{"os", "os.File", "net/http", "crypto/rand", "golang.org/x/telemetry/internal/configstore", "sync"}},
 	{"/repo", "./internal/telemetry", []string{"os"}},
 }
 
